@@ -157,6 +157,10 @@ func verifECFaultTolerance(seed []byte, length uint32, shape uint8, faultMask ui
 	}
 	boundaries := verifFrameBoundaries(len(data), dataShards)
 	faulty, missing := 0, 0
+	orig := make([][]byte, len(mems))
+	for i := range mems {
+		orig[i] = append([]byte{}, mems[i].parts[id]...)
+	}
 	for i := range mems {
 		if faultMask&(1<<uint(i)) == 0 {
 			continue
@@ -201,7 +205,24 @@ func verifECFaultTolerance(seed []byte, length uint32, shape uint8, faultMask ui
 			return false
 		}
 		again, err := verifECRead(store, id)
-		return err == nil && bytes.Equal(again, data)
+		if err != nil || !bytes.Equal(again, data) {
+			return false
+		}
+		// healing: after the read every data shard that was missing or emptied (no shard header left) holds its original
+		// bytes again
+		for i := 0; i < dataShards; i++ {
+			kind := (kinds >> (2 * uint(i))) % 4
+			if faultMask&(1<<uint(i)) == 0 || (kind != 0 && kind != 3) {
+				continue
+			}
+			mems[i].mu.Lock()
+			healed := bytes.Equal(mems[i].parts[id], orig[i])
+			mems[i].mu.Unlock()
+			if !healed {
+				return false
+			}
+		}
+		return true
 	}
 	return err != nil || bytes.Equal(got, data)
 }
